@@ -252,9 +252,39 @@ def short(o):
     return s if len(s) < 300 else s[:300] + '...'
 
 
+def _closure_capture(db, f, k):
+    """(parent fn, origin of the k-th captured variable at the closure's construction site in the parent) for a closure body f"""
+    import re
+    m = re.match(r'^(.*)::\{closure#\d+\}$', f['id'])
+    parent = db.fns.get(m.group(1)) if m else None
+    if parent is None:
+        return None, None
+    du = mir.DefUse(parent)
+    for blk in parent['blocks']:
+        for s in blk.get('stmts', []):
+            rv = s.get('rv') if isinstance(s, dict) else None
+            if isinstance(rv, dict) and isinstance(rv.get('agg'), dict) and rv['agg'].get('closure') == f['id'] and k < len(rv.get('ops', [])):
+                return parent, mir.origin(parent, rv['ops'][k], du)
+    return parent, None
+
+
 def mode_origin_ok(db, f, o):
     if o[0] == 'param' and 'RoundingMode' in f['locals'][o[1]]:
         return True
+    # a variable captured by a closure (by value, or by reference and read through it): judge it where the closure is built
+    cap = o[1] if o[0] == 'deref' else o
+    if f.get('kind') == 'Closure' and cap[0] == 'field' and cap[2] == ['param', 1] or (f.get('kind') == 'Closure' and cap[0] == 'field' and list(cap[2]) == ['param', 1]):
+        parent, o2 = _closure_capture(db, f, cap[1])
+        if o2 is not None:
+            if o2[0] == 'ref' :
+                # captured by reference: the referent is a local / parameter of the parent
+                tgt = o2[1]
+                if isinstance(tgt, (list, tuple)) and tgt and tgt[0] in ('local', 'param') and tgt[1] <= parent['arg_count'] and 'RoundingMode' in parent['locals'][tgt[1]]:
+                    return True
+                if isinstance(tgt, (list, tuple)) and tgt:
+                    return mode_origin_ok(db, parent, tuple(tgt))
+                return False
+            return mode_origin_ok(db, parent, o2)
     if o[0] == 'agg' and isinstance(o[1], dict) and o[1].get('adt') == 'core::option::Option':
         if o[1]['variant'] == 0:
             return True
